@@ -42,6 +42,85 @@ def validate_batches(work, ev, batches, tag):
     return bad
 
 
+def inode_form_stage(work, rep, ev, tier, rng):
+    """spec/InodeForm.tla: the basic / extended form of a file inode under every sequence of <= 4 (5) calls of the inode helpers
+    and the direct field updates of the block processor and the tree serialiser.  R: every emitted program on the real
+    functions, the inode written by the real meta writer and read back by the real meta reader (harness/replay_inode.c):
+    every value set last must come back; the form chosen is compared with the model (drift only)."""
+    cfg = work + "/if.cfg"
+    MO = 4 if tier == "quick" else 5
+    base = {"MaxOps": MO, "Emit": False, "BasicChecksSparse": True, "BasicChecksNlink": True, "BasicChecksStart": True, "BasicChecksSize": True, "ExtKeepsFrag": True}
+    write_cfg(cfg, spec="Spec", constants=base, invariants=["Faithful", "BasicHoldsAll", "NoTruncation"], deadlock=False)
+    r = run_tlc("InodeForm", cfg, workers=16, timeout=3000, heap="16g")
+    ev.tlc(r, "InodeForm ops<=%d" % MO)
+    if not r["ok"]:
+        print("MODEL-FAILURE: InodeForm violates %s" % r["violated"])
+        return None
+    for dev in ("BasicChecksSparse", "BasicChecksNlink", "BasicChecksStart", "BasicChecksSize", "ExtKeepsFrag"):
+        write_cfg(cfg, spec="Spec", constants=dict(base, MaxOps=3, **{dev: False}), invariants=["Faithful", "BasicHoldsAll", "NoTruncation"], deadlock=False)
+        r = run_tlc("InodeForm", cfg, workers=8, timeout=900)
+        ev.tlc(r, "dev InodeForm not " + dev)
+        if not r["violated"]:
+            print("SELF-CHECK-FAILED: InodeForm deviation %s without counterexample" % dev)
+            return None
+    write_cfg(cfg, spec="Spec", constants=dict(base, MaxOps=4 if tier != "quick" else 3, Emit=True), invariants=["EmitOK"], deadlock=False)
+    r = run_tlc("InodeForm", cfg, workers=4, timeout=3000, heap="16g")
+    progs = bpbind.parse_emitted(r["out"])
+    if len(progs) < 5000:
+        print("SELF-CHECK-FAILED: InodeForm emitted %d programs" % len(progs))
+        return None
+    if tier == "quick" and len(progs) > 12000:
+        # keep every program that involves a 64 bit value, a sample of the rest
+        hot = [p for p in progs if any(len(o) > 1 and o[1] in ("hi", "max") for o in p["prog"])]
+        rest = [p for p in progs if p not in hot] if len(progs) < 30000 else []
+        rng.shuffle(hot); rng.shuffle(rest)
+        progs = hot[:9000] + rest[:3000]
+    binp = work + "/replay_inode"
+    if not build.compile_harness(VERIF + "/harness/replay_inode.c", binp, variant="asan"):
+        raise RuntimeError("harness build failed")
+
+    def render(p):
+        return " ".join(o[0] if len(o) == 1 else "%s:%s" % (o[0], o[1]) for o in p["prog"])
+
+    def chunk(ci):
+        part = progs[ci::16]
+        q = subprocess.run(["timeout", "900", binp, "%s/if%d.bin" % (work, ci)], input="\n".join(render(p) for p in part) + "\n", capture_output=True, text=True,
+                           env=dict(os.environ, ASAN_OPTIONS="detect_leaks=1"))
+        return part, q
+    n, drift, seen = 0, 0, set()
+    with ThreadPoolExecutor(16) as ex:
+        for part, q in ex.map(chunk, range(16)):
+            lines = [l for l in q.stdout.split("\n") if l.startswith("{")]
+            if q.returncode != 0 or "ERROR: AddressSanitizer" in q.stderr or len(lines) != len(part):
+                if "mem" not in seen:
+                    seen.add("mem")
+                    rep.violation("inode-form-memory", "inode helper replay: rc %d, %d of %d answers: %s" % (q.returncode, len(lines), len(part), q.stderr[-300:]))
+                continue
+            for p, l in zip(part, lines):
+                n += 1
+                g = json.loads(l)
+                want = p["got"]
+                if "io" in g:
+                    if "io" not in seen:
+                        seen.add("io")
+                        rep.violation("inode-form-unreadable", "file inode after '%s' cannot be written / read back: error %d" % (render(p), g["io"]), data={"prog": p["prog"]})
+                    continue
+                lost = [k for k in ("size", "start", "frag", "sparse", "nlink", "xattr") if g[k] != want[k]]
+                if lost:
+                    key = "inode-form-" + lost[0]
+                    if key not in seen:
+                        seen.add(key)
+                        rep.violation(key, "file inode after the calls '%s': %s reads back as %s, set last: %s (form on disk: %s)"
+                                      % (render(p), lost, {k: g[k] for k in lost}, {k: want[k] for k in lost}, "extended" if g["ext"] else "basic"), data={"prog": p["prog"], "real": g})
+                elif g["ext"] != p["ext"]:
+                    drift += 1
+    ev.set("inode_form_programs_replayed", n)
+    ev.set("inode_forms_that_differ_from_the_model(spec drift, no alarm)", drift)
+    if drift:
+        print("SPEC-DRIFT (no alarm): %d inode programs end in another form (basic / extended) than InodeForm.tla predicts, all values intact" % drift)
+    return n
+
+
 def run(tier):
     ev = Evidence(PID, tier, "exploration")
     rep = Reporter(PID, ev)
@@ -176,7 +255,11 @@ def run(tier):
     ev.set("images_with_index_entry_for_a_header_continuing_in_the_next_metadata_block",
            sum(1 for _, evs in items if any(e["e"] == "DirIndex" and e["header_straddles"] for e in evs)))
     ev.set("directory_index_entries_validated", sum(1 for _, evs in items for e in evs if e["e"] == "DirIndex"))
-    ev.set("evaluations", len(items))
+    fn = inode_form_stage(work, rep, ev, tier, rng)
+    if fn is None:
+        ev.write()
+        return 2
+    ev.set("evaluations", len(items) + fn)
     ev.set("distinct_nontrivial", len({l for l, _ in items}))
     ev.set("events_validated", nev)
     ev.set("rule", "one evaluation = one image produced by gensquashfs / tar2sqfs from the scenario family and boundary classes under a "
